@@ -34,6 +34,7 @@ call refreshCharBuffer => XMLReader_refreshCharBuffer_obs
 call handleEOL => XMLReader_handleEOL
 throws XMLReader_refreshCharBuffer_obs XMLReader_handleEOL
 contract
+//@ include XMLReader_take1.contract.inc
 //@ include XMLReader_nextchar.contract.inc
 /* getNextChar: a character is taken iff there is one */
 __CPROVER_ensures(!verif_thrown ==> __CPROVER_return_value == GOT0)
